@@ -731,6 +731,29 @@ func (env *SpecEnv) call(x *ECall) *Val {
 			return mkBool(tSel(st.heapGet("A|"+l.className(), "(Array Int Bool)"), l.Ref))
 		}
 		return mkInt(tSel(st.heapGet("A|"+l.className(), "(Array Int Int)"), l.Ref), nil)
+	case "strOf", "bytesId":
+		// the text / content identity of a byte slice (equal contents <=> equal id); the same function the engine uses
+		// for string(b) and []byte(s) conversions
+		a := arg(0)
+		if a.K != KSlice {
+			if a.K == KInt {
+				return a // already a string id
+			}
+			return env.fail(x.Fun + " of non-slice")
+		}
+		fx.sol.Declare("str_of_bytes", "(declare-fun str_of_bytes ((Array Int Int) Int Int) Int)")
+		et := a.T.Underlying().(*types.Slice).Elem()
+		m := st.heapGet("M|"+typeKey(et)+"|", "(Array Int (Array Int Int))")
+		return mkInt("(str_of_bytes "+tSel(m, a.B)+" "+a.O+" "+a.L+")", types.Typ[types.String])
+	case "floordiv":
+		return mkInt(tDivE(env.evalInt(x.Args[0]), env.evalInt(x.Args[1])), nil)
+	case "fnval":
+		// fnval("pkg.Func"): the value of that function used as a function value
+		sl, ok := x.Args[0].(*EStr)
+		if !ok {
+			return env.fail("fnval needs a string literal")
+		}
+		return mkInt(fmt.Sprint(8192+strID("fn:"+sl.S)), nil)
 	case "atomicsOf":
 		// atomicsOf("pkg.Type.field"): the atomic.Bool state of that field in every object (a ghost map)
 		sl, ok := x.Args[0].(*EStr)
@@ -983,6 +1006,7 @@ func (env *SpecEnv) call(x *ECall) *Val {
 		terms, sorts, shape := env.flatArgs(args)
 		name := "g_" + gf.Name + "_" + shape
 		fx.sol.Declare(name, "(declare-fun "+name+" ("+strings.Join(sorts, " ")+") "+gf.Ret+")")
+		fx.ghostUsed(st, gf.Name)
 		t := name
 		if len(terms) > 0 {
 			t = "(" + name + " " + strings.Join(terms, " ") + ")"
